@@ -199,7 +199,7 @@ package index
 // encodeEntries (C12: every index go-git writes is read by git): entries go
 // out only after the list was put in git's order -- by name and, for one
 // name, by stage (read-cache.c: "unordered stage entries" is fatal) -- with
-// the order relation below. sort.Sort is trusted to order by the relation.
+// byNameAndStage's order relation. sort.Sort is trusted to order by the relation.
 //gvc:func (*Encoder).encodeEntries
 //gvc:  props C12
 //gvc:  theory int
@@ -207,11 +207,4 @@ package index
 //gvc:  opt frame args
 //gvc:  opt callees abstract
 //gvc:  sink encodeEntry requires ordered: calls("Sort") == 1
-//gvc:end
-
-//gvc:func byNameAndStage.Less
-//gvc:  props C12
-//gvc:  theory int
-//gvc:  requires in: 0 <= i && i < len(l) && 0 <= j && j < len(l) && l[i] != nil && l[j] != nil
-//gvc:  ensures order: result == (strgt(strid(l[j].Name), strid(l[i].Name)) || (strid(l[i].Name) == strid(l[j].Name) && l[i].Stage < l[j].Stage))
 //gvc:end
